@@ -16,6 +16,8 @@ Verdict(r) ==
         rejected == ArgsRejected(r.shape, r.mode)
         \* two ways to start the tool: `python -m python_minifier` (exit) and the pyminify console script, sys.exit(main()) (exit2)
         exit2 == IF "exit2" \in DOMAIN r THEN r.exit2 ELSE r.exit
+        \* --output names the source file itself: the user asked for the source to be rewritten; it is then judged like a target of an in-place run
+        selfout == IF "self_output" \in DOMAIN r THEN r.self_output ELSE FALSE
         ok0 == r.exit = 0 /\ exit2 = 0
         any0 == r.exit = 0 \/ exit2 = 0
         wrote == \/ \E i \in F : f(i).post # "pre" \/ f(i).opened_w
@@ -41,7 +43,7 @@ Verdict(r) ==
     ELSE IF (\E i \in visited : WillFail(i)) /\ (\E j \in Tg \ visited : f(j).post # "pre" \/ f(j).opened_w) THEN "c15:unvisited-file-touched"
     ELSE IF (\A i \in Tg : ~WillFail(i)) /\ ~ok0 THEN "c13:valid-run-failed"
     ELSE IF (\A i \in Tg : ~WillFail(i)) /\ visited # Tg THEN "c15:targets-not-all-visited"
-    ELSE IF Len(r.order) # Cardinality(visited) THEN "c15:file-read-twice"
+    \* (a target that is read twice is not by itself against the property; what the file holds afterwards is judged above)
     \* exactness (C13 subject to the size rule) for the files of a successful run
     ELSE IF r.mode = "in_place" /\ r.exit = 0 /\ (\E i \in Tg : Beneficial(i) /\ f(i).post # "min" /\ ~f(i).api_is_pre) THEN "c13:in-place-result-is-not-the-api-result"
     ELSE IF r.mode = "in_place" /\ (r.outw.what # "none" \/ r.sout.what # "none") THEN "c15:in-place-run-wrote-elsewhere"
@@ -49,7 +51,7 @@ Verdict(r) ==
     ELSE IF r.mode = "stdout" /\ r.outw.what # "none" THEN "c13:stdout-run-wrote-a-file"
     ELSE IF r.mode = "output" /\ r.exit = 0 /\ ~ItemOK(r.outw) THEN "c14:output-file-violates-size-rule-or-is-not-the-api-result"
     ELSE IF r.mode = "stdout" /\ r.exit = 0 /\ ~ItemOK(r.sout) THEN "c14:stdout-violates-size-rule-or-is-not-the-api-result"
-    ELSE IF r.mode # "in_place" /\ (\E i \in F : f(i).post # "pre" \/ f(i).opened_w) THEN "c15:source-modified-without-in-place"
+    ELSE IF r.mode # "in_place" /\ ~selfout /\ (\E i \in F : f(i).post # "pre" \/ f(i).opened_w) THEN "c15:source-modified-without-in-place"
     ELSE "ok"
 
 VARIABLE i
